@@ -1123,7 +1123,37 @@ def r_rank(x, rng):
     return Call(loose=True)
 
 
-@recipe("split_simplify", "pair_simplify", "loop_simplify")
+def closed_ladder(rng, m, dtype, product=True):
+    """2 x m ladder without dangling labels (the geometry on which loop_simplify actually fires: its connectivity filter only
+    accepts label groups that sit on ONE neighbouring tensor), tags T{i}."""
+    qtn = Q()
+    ts = []
+    for r in range(2):
+        for c in range(m):
+            inds = [f"v{c}"]
+            if c > 0:
+                inds.append(f"h{r}_{c - 1}")
+            if c < m - 1:
+                inds.append(f"h{r}_{c}")
+            o = [int(j) for j in rng.permutation(len(inds))]
+            inds = [inds[j] for j in o]
+            if product:
+                data = functools.reduce(np.multiply.outer, [rarr(rng, (2,), dtype) for _ in inds])
+            else:
+                data = rarr(rng, [2] * len(inds), dtype)
+            i = r * m + c
+            ts.append(qtn.Tensor(data, inds=inds, tags=[f"T{i}", "A" if i % 2 == 0 else "B"]))
+    return qtn.TensorNetwork(ts)
+
+
+@recipe("loop_simplify")
+def r_loop_simplify(x, rng):
+    if type(x) is Q().TensorNetwork and rng.integers(0, 2):
+        return Call(x=closed_ladder(rng, int(rng.integers(4, 6)), x.dtype), loose=True, tol=INV64)  # >= 3 loops: a later loop sees bonds made by an earlier one
+    return r_simplify_planted(x, rng)
+
+
+@recipe("split_simplify", "pair_simplify")
 def r_simplify_planted(x, rng):
     y = plant(x, "product", rng) if rng.integers(0, 3) else x
     return Call(x=y, loose=True, tol=INV64)
@@ -1236,9 +1266,20 @@ def r_fit(x, rng):
     return Call(tgt, method="als", steps=2, dense_solve=True, solver_dense="lstsq", tol=INV64, gauge=True)
 
 
+def add_parallel_bond(x, rng):
+    """Copy of x where two adjacent tensors share one more label 'mb' (a multibond), built with numpy."""
+    y = x.copy()
+    a, b, _ = pick(rng, neighbours(y))
+    for k, f in ((a, 0.5), (b, -0.25)):
+        t = y[k]
+        d = np.asarray(t.data)
+        t.modify(data=np.ascontiguousarray(np.stack([d, f * d[..., ::-1] if d.shape[-1] > 1 else f * d], axis=-1)), inds=(*t.inds, "mb"))
+    return y
+
+
 @recipe("fuse_multibonds")
 def r_fuse_multibonds(x, rng):
-    return Call()
+    return Call(x=add_parallel_bond(x, rng))
 
 
 @recipe("gate_inds")
@@ -1440,7 +1481,19 @@ def r_align(x, rng):
 
 @recipe("flatten")
 def r_flatten(x, rng):
-    return Call()
+    # a second tensor on one or two sites (a lazily applied one-site operator), so that flattening has something to do
+    qtn = Q()
+    y = x.copy()
+    o = set(y.outer_inds())
+    sites = pick(rng, list(y.sites), min(2, len(list(y.sites))))
+    for j, site in enumerate(sites):
+        t = y[y.site_tag(site)]
+        phys = sorted(i for i in t.inds if i in o)[0]
+        d = t.ind_size(phys)
+        tags = list(t.tags)
+        t.reindex_({phys: f"fl{j}"})
+        y |= qtn.Tensor(rand_gate(rng, d, y.dtype), inds=(phys, f"fl{j}"), tags=tags)
+    return Call(x=y)
 
 
 @recipe("retag_all")
@@ -2013,7 +2066,7 @@ def make_strategy(cname, letters):
         # which (with the pair first) concentrated the budget on a few pairs and left others unvisited
         return st.fixed_dictionaries({
             "seed": AR.seeds, "pseed": st.integers(0, 10 ** 6),
-            "n": st.integers(lo, hi), "geom": st.sampled_from(GEOMS), "dtype": st.sampled_from(["float64", "complex128"]),
+            "n": (st.sampled_from([3, 2, 4, 3, 1, 4]) if cname == "Tensor" else st.integers(lo, hi)), "geom": st.sampled_from(GEOMS), "dtype": st.sampled_from(["float64", "complex128"]),
             "exp": st.sampled_from([0.0, 0.0, 1.0, -2.0]), "view": st.booleans(),
             "pair": st.sampled_from(ex).map(lambda n: [cname, n])})
     return strat
@@ -2043,7 +2096,7 @@ for _c in CLASS_NAMES:
         _n = _static_pair_count(_c, _letters)
         SUBCHECKS.append(SubCheck(
             f"{SHORT[_c]}.{_label}", make_run(_c, _letters), make_strategy(_c, _letters),
-            examples=(14 * _n, 14 * _n * 13), shards=(1, 4), min_accept=0.5,
+            examples=(20 * _n, 20 * _n * 13), shards=(1, 4), min_accept=0.5,
             rule=f"{_c} pairs with names starting {_label} ({_n} exercised): purity, copy isolation, spelling equivalence, "
                  "axis-order invariance; nt: >=2 tensors (rank>=2) and a non-identity permutation"))
 SUBCHECKS.append(SubCheck("ops.tensor", run_tensor_ops, s_tensor_ops, examples=(400, 8000), shards=(1, 4),
